@@ -217,6 +217,13 @@ def check_case(case):
     require(out.is_complete and len(out.thetas) == n, "mcmc.complete", lambda: "collection holds %d of %d samples" % (len(out.thetas), n))
     require([th.k for th in out.thetas] == [b + (i + 1) * t for i in range(n)], "mcmc.stored_states", "stored states are not the states after steps b+t, b+2t, ...")
     require(isinstance(m.rng, np.random.Generator), "rng.type", "model did not receive a numpy Generator")
+    # the same model object sampled again (e.g. a second collection): the schedule starts over
+    n_ev = len(m.events)
+    steps_before = m.steps
+    out_again = sampling.sample(model=m, results=ThetaHolder(n_thetas=case.get("n2", 1)), seed=seed, n_chains=n_chains, chain_index=chain, n_burnin=case.get("b2", 0), thin=case.get("t2", 1))
+    ev2 = [(k_, (v_ - steps_before) if k_ in ("step", "state") else v_) for k_, v_ in m.events[n_ev:]]
+    _check_schedule(ev2, case.get("b2", 0), case.get("t2", 1), case.get("n2", 1), "mcmc.second_run")
+    require(out_again.is_complete, "mcmc.second_run.complete", "second collection from the same model is not complete")
     own = _prefix(m.rng)
     ref = _ref_prefix(seed, n_chains, chain)
     # informational only: the statement does not prescribe the mechanism, so disagreement with numpy's spawn is
